@@ -317,7 +317,20 @@ def check(run, prefix="O15", compose=True):
         o.missing("MerkleTree::derive_hash_root_last")
     else:
         idx = [bl["id"] for bl in b.blocks if bl["id"] in b.reach() and bl["term"]["k"] == "assert" and bl["term"]["ak"] == "BoundsCheck"]
-        o.check(bool(idx), "derive_hash_root_last|indexes-empty-roots", "EMPTY_ROOTS[height] is indexed in the walk", b.span)
+        if not idx:
+            # zip form (`proof.iter().zip(EMPTY_ROOTS.iter())`): nothing is indexed, so nothing can be indexed out of range; the walk must then still
+            # refuse an over-long proof up front (zip would silently stop after EMPTY_ROOTS.len() entries and accept a proof with trailing junk)
+            nones = [bb2 for (bb2, rv, sp, dst) in b.aggregates("core::option::Option", "None")]
+            lenchk = False
+            for bb2 in nones:
+                for a in G.guard_atoms(b, bb2, prog):
+                    if a[0] == "lt" and a[2] is True and any("EMPTY_ROOTS" in mir.show(x) for x in a[1]) and any(K.mentions_arg(b, x, 3) for x in a[1]):
+                        lenchk = True
+            zipped = any(c.name.endswith("Iterator::zip") and any("EMPTY_ROOTS" in mir.show(b.operand_term(a)) for a in c.args) for c in b.calls())
+            o.check(zipped and lenchk, "derive_hash_root_last|indexes-empty-roots", "EMPTY_ROOTS is walked in step with the proof (zip) behind the up-front length check, or indexed", b.span)
+            o.ok("derive_hash_root_last|bounds|bb", "no indexing of EMPTY_ROOTS: cannot go out of range", b.span, nontrivial=False)
+        else:
+            o.check(True, "derive_hash_root_last|indexes-empty-roots", "EMPTY_ROOTS[height] is indexed in the walk", b.span)
         for bb in idx:
             g = None
             for a in G.guard_atoms(b, bb, prog):
